@@ -1163,9 +1163,20 @@ func (cd *CloneDetector) addPairWithLimit(pairs []*ClonePair, newPair *ClonePair
 
 // limitAndSortClonePairs ensures final results are sorted and limited
 func (cd *CloneDetector) limitAndSortClonePairs(maxPairs int) {
-	// Sort clone pairs by similarity (descending)
+	// Sort clone pairs by similarity (descending); ties are broken by fragment
+	// location so that the order (and the cut below) is deterministic
 	sort.Slice(cd.clonePairs, func(i, j int) bool {
-		return cd.clonePairs[i].Similarity > cd.clonePairs[j].Similarity
+		a, b := cd.clonePairs[i], cd.clonePairs[j]
+		if a.Similarity != b.Similarity {
+			return a.Similarity > b.Similarity
+		}
+		if fragmentLess(a.Fragment1, b.Fragment1) {
+			return true
+		}
+		if fragmentLess(b.Fragment1, a.Fragment1) {
+			return false
+		}
+		return fragmentLess(a.Fragment2, b.Fragment2)
 	})
 
 	// Limit the number of pairs to prevent memory issues
